@@ -192,6 +192,8 @@ impl Seek for ScriptedStream {
         }
         if np == 0 {
             self.seeks_to_start.fetch_add(1, Ordering::Relaxed);
+            // the chunk schedule restarts with the stream (every transfer sees the same schedule)
+            self.idx = 0;
         }
         self.pos = np as u64;
         Ok(self.pos)
